@@ -1,6 +1,7 @@
 #!/usr/bin/env python3
-"""seed_matrix.py [seed-name-prefix...] — applies every kept seeded change (seeded/<name>/patch.diff) to /repo in turn, runs all
-20 quick checks against it (evidence diverted to out/seedruns so evidence/ keeps describing the real tree), reverts, and
+"""seed_matrix.py [seed-name-prefix...] — applies every kept seeded change (seeded/<name>/patch.diff) in turn to a scratch copy
+of /repo's working tree (tools/scratch_repo.sh; /repo itself is never modified), runs all 20 quick checks against the copy (VERIF_REPO;
+evidence diverted to out/seedruns so evidence/ keeps describing the real tree), resets the copy, and
 writes seeded/MATRIX.json + seeded/MATRIX.md: which checks (and rules) fire on which change."""
 import json, os, re, subprocess, sys
 from concurrent.futures import ThreadPoolExecutor
@@ -14,17 +15,26 @@ def sh(cmd, **kw):
 
 def run_check(args):
     seed, p = args
-    env = dict(os.environ, VERIF_EVIDENCE_DIR=os.path.join(V, "out", "seedruns", seed))
+    env = dict(os.environ, VERIF_REPO=SCRATCH, VERIF_EVIDENCE_DIR=os.path.join(V, "out", "seedruns", seed))
     os.makedirs(env["VERIF_EVIDENCE_DIR"], exist_ok=True)
     r = sh("./check %s --tier quick" % p, cwd=V, env=env)
     rules = sorted(set(re.findall(r"\[(R-[A-Z0-9-]+)\]", r.stdout)))
     return p, r.returncode, rules
 
 
+SCRATCH = None
+
+
 def main():
-    if sh("git -C /repo diff --quiet").returncode != 0:
-        print("/repo has uncommitted changes; refusing")
-        return 2
+    global SCRATCH
+    SCRATCH = sh(V + "/tools/scratch_repo.sh make").stdout.strip()
+    try:
+        return run()
+    finally:
+        sh(V + "/tools/scratch_repo.sh drop " + SCRATCH)
+
+
+def run():
     pref = sys.argv[1:]
     seeds = sorted(d for d in os.listdir(os.path.join(V, "seeded")) if os.path.isfile(os.path.join(V, "seeded", d, "patch.diff")))
     if pref:
@@ -32,16 +42,17 @@ def main():
     mpath = os.path.join(V, "seeded", "MATRIX.json")
     matrix = json.load(open(mpath)) if os.path.exists(mpath) else {}
     for s in seeds:
-        a = sh("git -C /repo apply %s" % os.path.join(V, "seeded", s, "patch.diff"))
+        a = sh("patch -p1 -s --no-backup-if-mismatch < %s" % os.path.join(V, "seeded", s, "patch.diff"), cwd=SCRATCH)
         if a.returncode != 0:
             print(s, "PATCH DOES NOT APPLY", a.stdout[:200])
             matrix[s] = {"error": "patch does not apply"}
+            sh(V + "/tools/scratch_repo.sh reset " + SCRATCH)
             continue
         try:
             with ThreadPoolExecutor(max_workers=8) as ex:
                 res = list(ex.map(run_check, [(s, p) for p in PROPS]))
         finally:
-            sh("git -C /repo checkout -- .")
+            sh(V + "/tools/scratch_repo.sh reset " + SCRATCH)
         target = s[:3]
         fired = {p: rules for p, rc, rules in res if rc == 1}
         broken = [p for p, rc, rules in res if rc == 2]
